@@ -64,7 +64,8 @@ type c29Proof struct {
 	relayNum uint64
 	life     int
 	sentSeq  int
-	recvSeq  int // 0 while SendNewProof has not returned
+	recvSeq  int   // 0 while SendNewProof has not returned
+	recvAt   int64 // global simulated ns at which SendNewProof returned
 	p        *pairingtypes.RelaySession
 }
 
@@ -124,6 +125,9 @@ func (d *c29Disk) BatchSave(entries []*DBEntry) error {
 		w.r.Probe("torn_batch")
 	}
 	now := w.now()
+	if err != nil {
+		L.writeFault, L.writeFaultSeq, L.writeFaultAt = true, w.seq, now
+	}
 	var sb strings.Builder
 	for i := 0; i < apply; i++ {
 		e := entries[i]
@@ -243,7 +247,10 @@ func (d *c29Disk) Delete(key string) error {
 	if d.w.fault("f.db", "db_delete_fail", d.w.fr.dbDelFail) {
 		return errors.New("simdisk: delete failed")
 	}
-	if _, ok := d.st.data[key]; ok {
+	if e, ok := d.st.data[key]; ok {
+		if rec := d.w.decode(e.data); rec != nil {
+			d.w.life.removedSeq[rec.key], d.w.life.removedAt[rec.key] = d.w.seq, d.w.now()
+		}
 		delete(d.st.data, key)
 		d.st.deletedBy[key] = "Delete"
 	}
@@ -283,6 +290,7 @@ func (d *c29Disk) DeletePrefix(prefix string) error {
 			w.r.Probe("claimed_prefix_deleted_other_chain")
 		}
 		if rec := w.decode(d.st.data[k].data); rec != nil {
+			w.life.removedSeq[rec.key], w.life.removedAt[rec.key] = w.seq, w.now()
 			fmt.Fprintf(&sb, " %s(%s)", c29Short(rec.key), kind)
 			if kind != "exact" {
 				if cu, ok := w.durable[rec.key]; ok && !w.paid[rec.key] && w.everOK[rec.key] < cu && !w.exhausted[rec.key] {
@@ -383,6 +391,14 @@ type c29Life struct {
 	nCalls        int
 	epochDone     bool
 	loadOpen      bool
+
+	// what the harness knows about snapshot runs that wrote nothing it could see (completed-snapshot oracle)
+	trigs         []*c29Proof      // proofs whose SendNewProof handed a threshold trigger to the snapshot job, in order of return
+	writeFault    bool             // a BatchSave of this lifetime failed or was torn ...
+	writeFaultSeq int              // ... last at this seq
+	writeFaultAt  int64            // ... and this simulated instant
+	removedSeq    map[c29Key]int   // seq of the last deletion of the key's disk entry in this lifetime
+	removedAt     map[c29Key]int64 // simulated instant of that deletion
 }
 
 type c29Rates struct {
@@ -803,6 +819,134 @@ func (w *c29World) checkSubmission(L *c29Life, rec *c29Proof, rd *c29Round) {
 }
 
 // ---------------------------------------------------------------------------------------------
+// completed snapshots: what they must have left on the disk
+//
+// A snapshot that wrote nothing is invisible at the disk, so the harness derives from the server's
+// own synchronisation that a snapshot run has started after a proof was stored and has returned:
+//
+//   - threshold: SendNewProof hands the trigger to the snapshot job over an unbuffered channel after
+//     it stored the proof; the job is one goroutine (receive, run, receive ...). So when a later
+//     SendNewProof whose call began after trigger T1 was consumed has its own trigger consumed, the run
+//     started by T1 has returned, and that run took the server's read lock after T1's proof and every
+//     proof accepted before T1's call began were in memory.
+//   - period: every run re-arms the snapshot timer when it starts and takes no simulated time (nothing
+//     sleeps while holding the server lock or inside the SimDisk), so run starts are never more than
+//     the configured period apart; simulated time only advances when no task can run. Hence once the
+//     clock is strictly past X + period, a run that started strictly after instant X has returned.
+//
+// Such a run, on a disk that acknowledged its writes and where nothing deleted the entry since, must
+// have left for every key whose epoch is still inside the active window (no claim round can have
+// gathered it, so it is unclaimed and still in memory) at least the best CuSum accepted before the run
+// started: this is what "snapshotted" has to mean for the restart clause, and the proof kept must be
+// the best one received. Narrow relaxation: a failed or torn batch (of any chain: RewardDB gives up the
+// whole snapshot at the first failing chain) or a deletion of the key's entry at or after the point
+// from which the run is known restarts the wait; it never excuses older data on an undisturbed disk.
+
+// c29CompletedRun describes one snapshot run known to have returned.
+type c29CompletedRun struct {
+	how       string
+	covered   func(q *c29Proof) bool // q was in memory before the run took the read lock
+	disturbed func(K c29Key) bool    // a write fault / deletion may have undone or prevented the run's write of K
+	because   string
+}
+
+func (w *c29World) checkCompletedSnapshot(L *c29Life, run c29CompletedRun) {
+	if w.badger || w.dead || w.life != L {
+		return
+	}
+	r := w.r
+	now := w.now()
+	for _, K := range w.keys {
+		if K.epoch+w.dist <= w.cur {
+			continue // a claim round may have gathered it (memory and disk entries are gone by design)
+		}
+		var best, first *c29Proof
+		for _, q := range w.sent[K] {
+			if q.life != L.idx || q.recvSeq == 0 {
+				continue
+			}
+			if first == nil || q.recvSeq < first.recvSeq {
+				first = q
+			}
+			if run.covered(q) && (best == nil || q.cu > best.cu) {
+				best = q
+			}
+		}
+		if best == nil {
+			continue
+		}
+		if run.disturbed(K) {
+			r.Probe("completed_snapshot_check_waived_after_disk_disturbance")
+			continue
+		}
+		st := w.disk[K.spec]
+		var have uint64
+		state := "absent-on-disk"
+		if dk, ok := st.keyOf[K]; ok {
+			if e, ok := st.data[dk]; ok && e.expire > now {
+				if rec := w.decode(e.data); rec != nil && rec.key == K {
+					have = rec.cu
+					state = "lower-on-disk"
+				}
+			}
+		}
+		r.OracleEvals++
+		r.Probe("completed_snapshot_checked_" + strings.ReplaceAll(run.how, "-", "_"))
+		if best != first && L.restored[K] < best.cu {
+			r.Probe("inplace_improvement_checked_after_completed_snapshot")
+		}
+		if have < best.cu {
+			w.viol("completed-snapshot-left-stale-proof-on-disk", run.how+":"+state, fmt.Sprintf("key %s: SendNewProof accepted CuSum %d at #%d; %s; no write to the disk failed and nothing deleted the key's entry since then, its epoch is still active (chain at %d, window %d) so it is unclaimed and in memory, yet the disk of chain %s holds CuSum %d for it (0 = absent): a crash now restores and claims less than the best proof received although a snapshot has run since", K, best.cu, best.recvSeq, run.because, w.cur, w.dist, K.spec, have))
+			return
+		}
+	}
+}
+
+// thresholdTriggerConsumed: SendNewProof of t2 (relay number on the snapshot threshold) returned.
+func (w *c29World) thresholdTriggerConsumed(L *c29Life, t2 *c29Proof) {
+	var t1 *c29Proof
+	for _, t := range L.trigs {
+		if t.recvSeq < t2.sentSeq && (t1 == nil || t.sentSeq > t1.sentSeq) {
+			t1 = t
+		}
+	}
+	L.trigs = append(L.trigs, t2)
+	if t1 == nil {
+		return
+	}
+	w.checkCompletedSnapshot(L, c29CompletedRun{
+		how:     "next-threshold-trigger-consumed",
+		covered: func(q *c29Proof) bool { return q == t1 || q.recvSeq < t1.sentSeq },
+		disturbed: func(K c29Key) bool {
+			if L.writeFault && L.writeFaultSeq >= t1.sentSeq {
+				return true
+			}
+			s, ok := L.removedSeq[K]
+			return ok && s >= t1.sentSeq
+		},
+		because: fmt.Sprintf("the SendNewProof call #%d..#%d (%s cu=%d, relay number on the snapshot threshold %d) handed a trigger to the snapshot job after that, and the job has since come back for the trigger of the call #%d..#%d, so the run in between has returned", t1.sentSeq, t1.recvSeq, c29Short(t1.key), t1.cu, w.threshold, t2.sentSeq, t2.recvSeq),
+	})
+}
+
+// snapshotPeriodElapsed is evaluated at harness instants (every simulated second, and at the crash).
+func (w *c29World) snapshotPeriodElapsed(L *c29Life) {
+	now := w.now()
+	period := int64(time.Duration(w.snapSec) * time.Second)
+	w.checkCompletedSnapshot(L, c29CompletedRun{
+		how:     "snapshot-period-elapsed",
+		covered: func(q *c29Proof) bool { return q.recvAt+period < now },
+		disturbed: func(K c29Key) bool {
+			if L.writeFault && L.writeFaultAt+period >= now {
+				return true
+			}
+			at, ok := L.removedAt[K]
+			return ok && at+period >= now
+		},
+		because: fmt.Sprintf("more than the snapshot period of %ds has passed on the simulated clock since then (and since the last failed write / deletion of the entry, if any), so a timer snapshot has started after it and returned", w.snapSec),
+	})
+}
+
+// ---------------------------------------------------------------------------------------------
 // harness tasks
 
 func (w *c29World) sleep(site string, d time.Duration) {
@@ -954,6 +1098,7 @@ func (w *c29World) producer(L *c29Life, pi int, n int) {
 		}
 		w.seq++
 		rec.recvSeq = w.seq
+		rec.recvAt = w.now()
 		if K.epoch+w.dist <= w.cur {
 			// the chain moved on while this call was in flight (relay served across an epoch change): the
 			// proof may have been stored after its epoch was gathered for claim. Such keys are exempt
@@ -963,6 +1108,10 @@ func (w *c29World) producer(L *c29Life, pi int, n int) {
 		}
 		if trig {
 			r.Probe("snapshot_by_threshold")
+			w.thresholdTriggerConsumed(L, rec)
+			if w.dead {
+				return
+			}
 		}
 		if updated {
 			r.Op("proof", "ok")
@@ -1014,6 +1163,10 @@ func (w *c29World) paymentsTask(L *c29Life) {
 	tail := 0
 	for {
 		w.sleep("harness:payments", time.Second)
+		if w.dead {
+			return
+		}
+		w.snapshotPeriodElapsed(L)
 		if w.dead {
 			return
 		}
@@ -1224,7 +1377,8 @@ func (w *c29World) runLife(s *simrt.Sched, li int, final bool) {
 	r := w.r
 	L := &c29Life{idx: li, start: time.Now(), restoreSeq: map[string]int{}, findAllFailed: map[string]bool{}, restored: map[c29Key]uint64{},
 		rounds: map[int64]*c29Round{}, subs: map[*c29Proof]*c29Sub{}, keyPaidSeq: map[c29Key]int{}, okMax: map[c29Key]uint64{}, subMax: map[c29Key]uint64{},
-		sessKeys: map[uint64]map[c29Key]bool{}, inFlight: map[c29Key]int{}, late: map[c29Key]bool{}, loadOpen: true}
+		sessKeys: map[uint64]map[c29Key]bool{}, inFlight: map[c29Key]int{}, late: map[c29Key]bool{}, loadOpen: true,
+		removedSeq: map[c29Key]int{}, removedAt: map[c29Key]int64{}}
 	w.life = L
 	w.crashReq = false
 	tx := &c29Tx{w: w, L: L}
@@ -1346,6 +1500,11 @@ func (w *c29World) sortedKeys(m map[c29Key]uint64) []c29Key {
 // retries.
 func (w *c29World) atCrash(L *c29Life) {
 	r := w.r
+	// the last instant of this lifetime: what completed snapshots had to leave on the disk
+	w.snapshotPeriodElapsed(L)
+	if w.dead {
+		return
+	}
 	w.required = map[c29Key]uint64{}
 	w.reqWhy = map[c29Key]string{}
 	now := w.now()
@@ -1510,6 +1669,6 @@ func init() {
 		Rule:    "One run = 1-3 process lifetimes of the real RewardServer+RewardDB, each inside its own synctest bubble under the token-passing scheduler (every lock, atomic, channel op, select, WaitGroup.Wait, sleep and `go` of the instrumented rewardserver package is a scheduling point; every map range is ordered by the simulator: sorted / reversed / shuffled per run). Tasks: 1-4 proof producers (SendNewProof for 1-3 consumers x 1-2 chains x the epochs still inside the active window; CuSum increasing, equal and decreasing; relay numbers that hit the snapshot threshold; session ids either fresh random 63-bit per consumer/chain/epoch as lavasession consumers make them, or short ids 1/10/100/7 shared by consumers, chains and epochs), an epoch task (simulated chain advances, young chain starting at epoch 10/20 or mature chain, UpdateEpoch per epoch), a payment task (relay_payment events built like x/pairing emits them, parsed by BuildPaymentFromRelayPaymentEvent, fed to PaymentHandler), the start-up task (AddDB + restoreRewardsFromDB per chain under the server lock), the server's own snapshot job and claim rounds. Profiles: clean (no fault at all; every best proof must be claimed), faults (tx failure 1/8..7/8, tx panic, tx slower than an epoch, DB write failure, torn batch, DB delete / read failure, missed epoch updates, multi-epoch jumps, lost payment events), crash (faults + 1-2 crashes at a tape-chosen scheduling point or, adaptively, right after an unclaimed durable proof vanished from the disk; downtime 0-6 epochs; restart over the SimDisk content), badger (clean, on the real in-memory Badger). Non-trivial = >=3 accepted proofs, >=1 claim transaction, >=50 context switches; distinct = (op,outcome,fault) sequence x context-switch sequence",
 		Real:    []string{"protocol/rpcprovider/rewardserver RewardServer: SendNewProof/saveProofInMemory, UpdateEpoch -> runRewardServerEpochUpdate -> sendRewardsClaim/gatherRewardsForClaim/gatherFailedRequestPaymentsToRetry/updatePaymentRequestAttempt, PaymentHandler, snapshot job (timer + threshold), restoreRewardsFromDB, BuildPaymentFromRelayPaymentEvent (instrumented copies through the build overlay)", "RewardDB (key assembly, BatchSave, FindAllInDB, DeleteClaimedRewards, DeleteEpochRewards)", "BadgerDB on in-memory Badger (profile badger only)", "utils/sigs signing and signer recovery of every proof (deterministic consumer keys)", "goccy/go-json encoding of the stored proofs", "timers / context deadlines on the synctest fake clock"},
 		Stubbed: []string{"RewardsTxSender + ChainTrackerSpecsInf: simulated lava chain (epoch, earliest epoch in memory, payment window = GetEpochSizeMultipliedByRecommendedEpochNumToCollectPayment), TxRelayPayment records every call and fails / panics / is slow by tape", "rewardserver.DB: SimDisk (acknowledged writes durable, write failure, torn batch, delete and read failure), survives crashes", "relay server (producer tasks calling SendNewProof like RPCProviderServer.SendProof)", "state tracker: epoch updates and payment events (routed by description like PaymentUpdater)", "process crash = the bubble of that lifetime ends, nothing but SimDisk and the chain survives", "provider metrics = nil"},
-		Assume:  []string{"code between two instrumented synchronisation points is atomic in the simulation (every simulated schedule is a real one, not vice versa): a data race without any lock is invisible", "GetEpochSize reports 1 so that the crypto/rand claim delay of AddRewardDelayForUnifiedRewardDistribution is always 0 (runs stay a function of the tape)", "start-up uses AddDB + restoreRewardsFromDB under the server lock exactly like AddDataBase, whose hard-wired NewLocalDB (Badger on disk) is replaced by the SimDisk handle", "a proof is handed to SendNewProof only while its epoch is inside the active window (the session manager rejects relays of blocked epochs); when the chain leaves that window while the call is still in flight (in production possible only if the random claim delay is 0) the proof is let through, but its key is exempt from the best-proof, no-claim-after-payment and completeness oracles, which presuppose that no proof arrives after its epoch was gathered for claim", "a claim is linked to its claim round through the goroutine that created the TxRelayPayment goroutine; the memory bound is checked against the earliest epoch the chain reported to that round, the window bound against the chain at the submission instant", "`claimed after restart` means handed to TxRelayPayment at least once with at least the durable CuSum; proofs given up after MaxPaymentRequestsRetiresForSession failed submissions, claimed successfully or paid before the crash are not required", "SimDisk honours the entry TTL (24 h default) on the simulated clock; no run lasts that long"},
+		Assume:  []string{"code between two instrumented synchronisation points is atomic in the simulation (every simulated schedule is a real one, not vice versa): a data race without any lock is invisible", "GetEpochSize reports 1 so that the crypto/rand claim delay of AddRewardDelayForUnifiedRewardDistribution is always 0 (runs stay a function of the tape)", "start-up uses AddDB + restoreRewardsFromDB under the server lock exactly like AddDataBase, whose hard-wired NewLocalDB (Badger on disk) is replaced by the SimDisk handle", "a proof is handed to SendNewProof only while its epoch is inside the active window (the session manager rejects relays of blocked epochs); when the chain leaves that window while the call is still in flight (in production possible only if the random claim delay is 0) the proof is let through, but its key is exempt from the best-proof, no-claim-after-payment and completeness oracles, which presuppose that no proof arrives after its epoch was gathered for claim", "a claim is linked to its claim round through the goroutine that created the TxRelayPayment goroutine; the memory bound is checked against the earliest epoch the chain reported to that round, the window bound against the chain at the submission instant", "`claimed after restart` means handed to TxRelayPayment at least once with at least the durable CuSum; proofs given up after MaxPaymentRequestsRetiresForSession failed submissions, claimed successfully or paid before the crash are not required", "SimDisk honours the entry TTL (24 h default) on the simulated clock; no run lasts that long", "completed-snapshot oracle: a snapshot run that wrote nothing is inferred from the server's own synchronisation - (threshold) the unbuffered trigger hand-over of SendNewProof to the single snapshot goroutine: once a later call's trigger was consumed the run started by the earlier trigger has returned; (period) every run re-arms the timer at its start and takes no simulated time (nothing sleeps while holding the server lock or inside SimDisk, simulated time advances only when no task can run), so strictly more than one snapshot period after an instant a run that started after that instant has returned. Such a run must leave on an undisturbed disk, for every key whose epoch is still inside the active window, at least the best CuSum accepted before it started; a failed / torn batch of any chain or a deletion of the entry restarts the wait (RewardDB abandons the whole snapshot at the first failing chain). Not evaluated on the badger profile"},
 	})
 }
